@@ -369,7 +369,8 @@ func (t *TupleType) Parameters() []px.Value {
 	for _, c := range t.types {
 		params = append(params, c)
 	}
-	if !(t.size == nil || top == 0 && *t.size == *IntegerTypePositive) {
+	// a size that says what an absent size means, one element per type, is left out
+	if !(t.size == nil || top == 0 && *t.size == *IntegerTypePositive || top > 0 && *t.size == (IntegerType{int64(top), int64(top)})) {
 		params = append(params, t.size.SizeParameters()...)
 	}
 	return params
